@@ -10,6 +10,8 @@ CONSTANTS
   ChirpKeyByChannel = TRUE
   EagerOps <- None_
   NumpyOps <- N_NumpyNames
+  ReaderPerBlock = FALSE
+  OverwriteTags <- None_
 VIEW View
 PROPERTY StaysDask
 CHECK_DEADLOCK FALSE
